@@ -180,7 +180,10 @@ class World:
         for r in roots:
             sub = self.subtree(r)
             if all(self.reg[x] for x in sub):
-                if self.H[r].name in ("dataset", "creator", "contact", "individualName", "title", "surName"):
+                # (an unknown-named root that still carries a parent link - the copy of an inner node keeps its source's
+                #  parent, which the statements leave unconstrained - makes prune try to detach it from a node that does not
+                #  list it; that combination is outside every statement and is not enabled)
+                if self.H[r].name != "bogus" or self.H[r].parent is None:
                     ops.append(["prune", r, False])
                     ops.append(["prune", r, True])
                 refs = [x for x in sub if self.H[x].name == "references"]
@@ -214,10 +217,13 @@ class World:
         reach_before = set()
         for r in self.roots():
             reach_before.update(self.subtree(r))
+        pending = []
         try:
             if kind == "create":
                 def mk(t):
-                    n = Node(t[0], content=t[1])
+                    # explicit ids in mixed case (ids are opaque strings)
+                    n = Node(t[0], id=f"Node-{len(self.all_ids) + len(pending)}-{t[0][:3].upper()}", content=t[1])
+                    pending.append(1)
                     for k, v in t[2].items():
                         n.add_attribute(k, v)
                     for c in t[3]:
@@ -296,13 +302,19 @@ class World:
             elif kind in ("prune", "expand"):
                 r = op[1]
                 before = set(self.subtree(r))
+                reported = []
                 if kind == "prune":
-                    validate.prune(H[r], op[2])
+                    reported = validate.prune(H[r], op[2])
                 else:
                     references.expand(H[r])
                 # structure is taken from the implementation (C15/C16 judge it); new nodes are adopted as created
                 self.adopt(H[r])
                 after = set(self.subtree(r))
+                for t_ in reported or []:
+                    # whatever prune reports as removed is discarded with its subtree (also an unknown root itself)
+                    j = self.idx(t_[0]) if isinstance(t_, tuple) and t_ else None
+                    if j is not None:
+                        after -= set(self.subtree(j))
                 for x in before - after:
                     # discarded by the operation: must leave the registry
                     self.reg[x] = False
